@@ -14,6 +14,14 @@ CHECKS = {
          "checks the per-record plaintext length against the limit in force (user recordSize, RFC 8449 negotiated limit, TLS 1.3 padding).",
          "in-memory transport; reference ciphers/KDFs validated against OpenSSL CLI and RFC vectors; two dead suites (0x40, 0x6A) cannot be negotiated at all and are outside the domain",
          "DESIGN.md §4 C01"),
+ "C02": ("fault_enumeration",
+         "fault enumeration + property-based testing: attacker transformations on captured record streams, prefix-acceptance model, reference sender for insider malformations",
+         "For every (suite, version, EtM) triple the honest sender's records are captured and one attacker transformation is applied (bit flips at header/IV/body/tag positions, truncation, "
+         "extension, splice, replay, swap, drop-then-continue, reflection, cross-connection, forged plaintext alert/CCS, unknown content type, empty record); the receiver must return exactly the "
+         "data of the honest prefix and reject the first deviating record with a fatal alert seen by the peer, closed and non-resumable. A directly keyed RecordLayer is also fed by the reference "
+         "sender: every legal padding/inner padding is accepted bit-exactly, insider malformations (good MAC bad padding, zero-only TLS 1.3 inner plaintext, wrong outer type, overflow) raise the documented exceptions.",
+         "in-memory transport; incomplete trailing records are 'blocked' (C17); reference sender validated in C09 self-test",
+         "DESIGN.md §4 C02"),
  "C09": ("exploration",
          "property-based differential testing (Hypothesis) against independent reference implementations validated with the openssl CLI",
          "Every shipped pure-Python primitive and derivation function (AES-CBC/CTR, GCM, CCM/CCM-8, ChaCha20, Poly1305, ChaCha20-Poly1305, 3DES, RC4, HMAC, SSLv3/TLS1.0/TLS1.2 PRFs, "
